@@ -164,6 +164,18 @@ def run(ctx, impl_only=False):
     # inputs that share objects (one list at several positions of t1; t2 a shallow copy or a sub-object of t1)
     pairs += FAM.alias_pairs(ctx, max(12, n // 12))
     pairs += FAM.rich_pairs(ctx, n // 4)
+    # dictionary keys that a repr would escape (backslash, control and non-printing characters): the reported paths still lead to the values
+    for k in ['C:\\temp\\new.txt', 'a\nb', 'tab\there', 'nb\xa0sp', 'back\\', "q'uote", 'a\\nb', '\x7f', 'é\u200b']:
+        inner = ctx.rng.choice([lambda v: {'v': v}, lambda v: [0, v], lambda v: v])
+        pairs.append(({k: inner(1), 'z': 0}, {k: inner(2), 'z': 0}))
+        pairs.append(({'top': {k: [1, 2, 3]}}, {'top': {k: [1, 3], k + 'x': 1}}))
+    # dictionaries that are reported as a whole (few keys in common) and carry double-underscore keys, which the comparison leaves out:
+    # the reported old and new values are the dictionaries at the path, those keys included
+    for _ in range(max(6, n // 20)):
+        a_ = {'__typename': 'U', '__id': ctx.rng.randint(1, 9), 'name': 'a', 'mail': 'm', 'age': 3}
+        b_ = {'__typename': 'U', '__id': a_['__id'], 'fullname': 'a', 'email': 'm', 'years': 3, 'mail': ctx.rng.choice(['m', 'n'])}
+        w = ctx.rng.choice([lambda v: {'user': v}, lambda v: {'items': [v]}, lambda v: v, lambda v: [0, v]])
+        pairs.append((w(a_), w(b_)))
     reqs = []
     for (t1, t2) in pairs:
         s1, s2 = copy.deepcopy(t1), copy.deepcopy(t2)
